@@ -22,6 +22,8 @@ import (
 func init() {
 	families["dhfrag"] = genDhfrag
 	executors["dhfrag"] = execDhfrag
+	families["rawfrag"] = genRawFrag
+	executors["rawfrag"] = execRaw // the RawDecoder over a schedule reader (fam_raw.go); family of C08: --spec = contiguous
 }
 
 // dhRec: the listeners of a dhfrag line: framing-level events (as fragRec), "a file_id message was seen in the current
@@ -369,5 +371,67 @@ func genDhfrag(emit func(string), tier string, rng *Rng) {
 				rbLens(rdrFinish(rdrRandSchedule(rng, len(b), 4+rng.Intn(2)), rng.Intn(3)))))
 			count("sched:refill-straddle")
 		}
+	}
+}
+
+// ---------------------------------------------------------------- family rawfrag (C08_raw_chunk_indep)
+
+// genRawFrag: the RawDecoder reads with io.ReadFull straight from the reader. Streams — complete sequences and chains, with
+// 0..3 trailing bytes (a further header's first byte, garbage) — cut at EVERY offset (so that the stream ends right behind
+// the first byte of a sequence, a message header byte, a developer-field count byte, inside every multi-byte read), and each
+// cut delivered: in one Read together with io.EOF; with its LAST BYTE alone together with io.EOF; one byte per Read with
+// io.EOF on the last; with io.EOF afterwards; in random partitions. The reference (--spec) is bytes.NewReader.
+func genRawFrag(emit func(string), tier string, rng *Rng) {
+	thorough := tier == "thorough"
+	ns, maxL := 70, 300
+	if thorough {
+		ns, maxL = 400, 700
+	}
+	one := func(b []byte, cs []rdrChunk) { emit(fragOp("rawfrag", 1, "", b, rbLens(cs))) }
+	for i := 0; i < ns; i++ {
+		b := fragSeal(rng, fragRecords(rng, 1+rng.Intn(5)))
+		if rng.Intn(3) == 0 {
+			b = append(b, fragSeal(rng, fragRecords(rng, 1+rng.Intn(3)))...)
+		}
+		switch rng.Intn(4) {
+		case 0:
+			b = append(b, []byte{12, 14}[rng.Intn(2)])
+		case 1:
+			b = append(b, byte(rng.Intn(256)))
+		case 2:
+			b = append(b, rng.Bytes(2+rng.Intn(2))...)
+		}
+		if len(b) > maxL {
+			continue
+		}
+		count("stream")
+		for cut := 0; cut <= len(b); cut++ {
+			t := b[:cut]
+			one(t, []rdrChunk{{cut, io.EOF}})
+			if cut >= 1 {
+				one(t, []rdrChunk{{n: cut - 1}, {1, io.EOF}})
+			}
+			one(t, rdrFinish(rdrRandSchedule(rng, cut, 1), 1))
+			one(t, rdrFinish(rdrRandSchedule(rng, cut, 2+rng.Intn(4)), rng.Intn(3)))
+			count("cut")
+		}
+	}
+	// larger inputs (fixtures, encoder outputs, record streams, mutated, truncated): a few schedules each
+	n := 120
+	if thorough {
+		n = 1500
+	}
+	pool, kinds := fragInputs(rng, n, 6000)
+	for i, b := range pool {
+		count("in:" + kinds[i])
+		L := len(b)
+		one(b, []rdrChunk{{L, io.EOF}})
+		if L >= 1 {
+			one(b, []rdrChunk{{n: L - 1}, {1, io.EOF}})
+		}
+		one(b, rdrFinish(rdrRandSchedule(rng, L, 2+rng.Intn(4)), rng.Intn(3)))
+		tail := append(append([]byte(nil), b...), []byte{12, 14, byte(rng.Intn(256))}[rng.Intn(3)])
+		one(tail, []rdrChunk{{n: L}, {1, io.EOF}})
+		one(tail, []rdrChunk{{L + 1, io.EOF}})
 	}
 }
